@@ -76,8 +76,48 @@ pub struct Ctx {
     pub emit: Emit,
 }
 
+/// `isomdl-corr --probe <entry> <file>`: ONE call of an entry point in a process of its own, so that what cannot be caught in
+/// process (stack overflow, allocation failure: the process aborts) or does not come back (a loop) is an observation of the parent:
+/// exit 0 = returned, 3 = panicked, killed by a signal = aborted, still running after the deadline = hang.
+/// File: line 1 = stored reader / nothing, line 2 = hex input.
+fn probe(entry: &str, file: &str) -> ! {
+    use isomdl::presentation::Stringify;
+    let text = std::fs::read_to_string(file).expect("probe file");
+    let mut lines = text.lines();
+    let state = lines.next().unwrap_or("").to_string();
+    let input = hex::decode(lines.next().unwrap_or("")).unwrap_or_default();
+    let r = std::panic::catch_unwind(move || match entry {
+        "handle_response" => { let mut rdr = isomdl::presentation::reader::SessionManager::parse(state).expect("reader state"); let _ = rdr.handle_response(&input); }
+        "handle_request" => { let mut dev = isomdl::presentation::device::SessionManager::parse(state).expect("device state"); let _ = dev.handle_request(&input); }
+        "establish_session" => { let _ = isomdl::presentation::reader::SessionManager::establish_session(String::from_utf8_lossy(&input).to_string(), sess::simple_namespaces(&["a"]), Default::default()); }
+        _ => { let _ = isomdl::cbor::from_slice::<ciborium::Value>(&input); }
+    });
+    std::process::exit(if r.is_ok() { 0 } else { 3 })
+}
+
+/// run `--probe` in a child process with a deadline; returns "ok" | "panic" | "abort:<signal>" | "hang"
+pub fn probe_in_child(entry: &str, state: &str, input: &[u8], tag: &str) -> String {
+    use std::os::unix::process::ExitStatusExt;
+    let dir = std::env::current_exe().ok().and_then(|p| p.parent().map(|d| d.to_path_buf())).unwrap_or_default();
+    let file = dir.join(format!("probe_{}_{tag}.txt", std::process::id()));
+    std::fs::write(&file, format!("{state}\n{}\n", hex::encode(input))).expect("write probe file");
+    let mut child = std::process::Command::new(std::env::current_exe().unwrap()).arg("--probe").arg(entry).arg(&file)
+        .stdout(std::process::Stdio::null()).stderr(std::process::Stdio::null()).spawn().expect("spawn probe");
+    let t = std::time::Instant::now();
+    let res = loop {
+        match child.try_wait() {
+            Ok(Some(st)) => break match (st.code(), st.signal()) { (Some(0), _) => "ok".to_string(), (Some(3), _) => "panic".into(), (Some(c), _) => format!("exit:{c}"), (None, Some(sig)) => format!("abort:{sig}"), _ => "abort".into() },
+            Ok(None) => { if t.elapsed().as_secs() >= 10 { let _ = child.kill(); let _ = child.wait(); break "hang".into(); } std::thread::sleep(std::time::Duration::from_millis(5)); }
+            Err(_) => break "abort".into(),
+        }
+    };
+    let _ = std::fs::remove_file(&file);
+    res
+}
+
 fn main() {
     let args: Vec<String> = std::env::args().collect();
+    if args.len() == 4 && args[1] == "--probe" { probe(&args[2], &args[3]); }
     let mut prop = String::new();
     let mut tier = "quick".to_string();
     let mut seed: u64 = 1;
